@@ -192,3 +192,18 @@ package standard
 //@   requires data != nil && nolocks()
 //@ func (*Service).startEpochTicker$2
 //@   requires data != nil
+//@
+//@ // ---- C20: a slot is reported as pending from the set-up of its attestation job until the job ends or is withdrawn ----
+//@ func (*Service).HasPendingAttestations
+//@   requires nolocks()
+//@   ensures result == (in(s.pendingAttestations, slot) && s.pendingAttestations[slot])
+//@   modifies nothing
+//@
+//@ func (*Service).refreshAttesterDutiesForEpoch
+//@   requires nolocks() && epoch <= 9223372036854775807
+//@   // a withdrawn job's slot is no longer pending, before anything is set up again
+//@   loop 1
+//@     invariant cancelledJobs != nil
+//@     invariant forall sl phase0.Slot {in(cancelledJobs, sl)} :: in(cancelledJobs, sl) ==> !in(s.pendingAttestations, sl)
+//@     invariant fresh(cancelledJobs) && s.pendingAttestations != nil
+//@   at call go#1: assert forall sl phase0.Slot :: in(cancelledJobs, sl) ==> !in(s.pendingAttestations, sl)
